@@ -4,6 +4,7 @@
   `argument_filter` of the current source; `rx` (regex search results) is universally quantified.
 -/
 import NemoVerif.Lemmas.Match
+import NemoVerif.Lemmas.MatchHist
 namespace NemoVerif.C04
 open NemoVerif NemoVerif.Match NemoVerif.Generated.C04
 
@@ -262,6 +263,190 @@ theorem kinds_must_agree (rx : Rx) (sa : String → Option (List (String × Val)
   have h1 : (ev.kind == EvKind.plain) = false := by simpa using h
   have h2 : (ref.kind == ev.kind) = false := by simpa using hk
   simp [h1, h2]
+
+
+/-! ### A waiting statement over a history: "a waiting `match` statement advances on an event exactly when … every
+    parameter written in the statement is matched by the event's value" — the parameters are expressions; what they are
+    worth is decided by the state current WHEN THE EVENT IS PROCESSED (`Models/MatchHist.lean`).  `Stmt` is an arbitrary
+    function of the environment, so the theorems hold for every expression semantics. -/
+
+/-- A head that is still waiting after the history `pre` advances on the event `e` exactly when `e` is a candidate for
+    it and the statement, evaluated in the environment produced by the `set` steps of `pre` (and by nothing else),
+    yields a reference event with a positive matching score. -/
+theorem waiting_statement_follows_current_state (rx : Rx) (sa : String → Option (List (String × Val)))
+    (env : Env) (h : Head) (pre : List Step) (e : Ev)
+    (h0 : h.waiting = true) (hw : (runState rx sa env h pre).2.waiting = true) :
+    outcomeAfter rx sa env h pre e = .hit ↔
+      isCandidate h.evName e.name = true ∧
+      ∃ ms ref k p, h.stmt (envAfter env pre) = some ms ∧ refEvent ms = some ref ∧
+        matchingScore rx sa e ref h.prio = .pos k p := by
+  unfold outcomeAfter
+  rw [runState_head_waiting rx sa env h pre h0 hw, runState_env]
+  exact stepHead_ev_hit rx sa (envAfter env pre) h e h0
+
+/-- Earlier events leave no trace: two histories that leave the head waiting and produce the same environment give
+    the same outcome for every next event — whatever events were compared (and rejected) before. -/
+theorem earlier_events_leave_no_trace (rx : Rx) (sa : String → Option (List (String × Val)))
+    (env : Env) (h : Head) (pre pre' : List Step) (e : Ev) (h0 : h.waiting = true)
+    (hw : (runState rx sa env h pre).2.waiting = true) (hw' : (runState rx sa env h pre').2.waiting = true)
+    (henv : envAfter env pre = envAfter env pre') :
+    outcomeAfter rx sa env h pre e = outcomeAfter rx sa env h pre' e := by
+  unfold outcomeAfter
+  rw [runState_head_waiting rx sa env h pre h0 hw, runState_head_waiting rx sa env h pre' h0 hw', runState_env,
+    runState_env, henv]
+
+/-- … in particular all events of the history can be dropped: only its `set` steps count. -/
+theorem outcome_depends_on_sets_only (rx : Rx) (sa : String → Option (List (String × Val)))
+    (env : Env) (h : Head) (pre : List Step) (e : Ev) (h0 : h.waiting = true)
+    (hw : (runState rx sa env h pre).2.waiting = true) :
+    outcomeAfter rx sa env h pre e = outcomeAfter rx sa env h (setsOf pre) e := by
+  apply earlier_events_leave_no_trace rx sa env h pre (setsOf pre) e h0 hw
+  · rw [runState_setsOf]; exact h0
+  · rw [envAfter_setsOf]
+
+/-- The property for a plain event statement `match Name(params)` in a history: the head advances on a (plain) event
+    exactly when the event has the statement's name and the documented relation holds between the event's arguments
+    and the parameters AS THEY EVALUATE NOW (hypotheses as in `match_iff_documented`). -/
+theorem plain_statement_advances_iff_documented_now (rx : Rx) (sa : String → Option (List (String × Val)))
+    (env : Env) (h : Head) (pre : List Step) (e : Ev) (name : String) (ps : List (String × Val))
+    (h0 : h.waiting = true) (hw : (runState rx sa env h pre).2.waiting = true)
+    (hs : h.stmt (envAfter env pre) = some (.bare name false ps)) (hn : h.evName = name)
+    (hni : name ∉ internalEventsAll) (hna : (name.splitOn "Action").length ≤ 1)
+    (hk : e.kind = .plain) (hr : NoReserved F (.dict ps)) (hne : score F rx (.dict e.args) (.dict ps) ≠ .err) :
+    outcomeAfter rx sa env h pre e = .hit ↔ e.name = name ∧ Matches [] rx (.dict e.args) (.dict ps) := by
+  rw [waiting_statement_follows_current_state rx sa env h pre e h0 hw, ← match_iff_documented rx _ _ hr hne]
+  have href : refEvent (.bare name false ps) = some { kind := .plain, name := name, args := ps } := by
+    have : ¬ (name.splitOn "Action").length > 1 := by omega
+    simp [refEvent, hni, this]
+  have hms : matchingScore rx sa e { kind := .plain, name := name, args := ps } h.prio =
+      if name ≠ e.name then .zero else
+        match score F rx (.dict e.args) (.dict ps) with
+        | .ok k => .pos k h.prio
+        | .no => .zero
+        | .err => .err := by
+    have hc := eventCore_plain rx sa e { kind := .plain, name := name, args := ps } hk hni
+    simp only [matchingScore, kindIsInstance, hk, eventScore, hc]
+    by_cases hnn : name = e.name
+    · cases hsc : score argumentFilter rx (.dict e.args) (.dict ps) <;> simp [hnn, resToEv]
+    · simp [hnn]
+  constructor
+  · rintro ⟨_, ms, ref, k, p, h1, h2, h3⟩
+    rw [hs] at h1
+    cases h1
+    rw [href] at h2
+    cases h2
+    rw [hms] at h3
+    by_cases hnn : name = e.name
+    · refine ⟨hnn.symm, ?_⟩
+      cases hsc : score F rx (.dict e.args) (.dict ps) <;> simp_all [Res.isOk]
+    · simp [hnn] at h3
+  · rintro ⟨hnn, hok⟩
+    refine ⟨by simp [isCandidate, hn, hnn], .bare name false ps, { kind := .plain, name := name, args := ps }, ?_⟩
+    cases hsc : score F rx (.dict e.args) (.dict ps) with
+    | ok k =>
+      refine ⟨k, h.prio, hs, href, ?_⟩
+      rw [hms]; simp [hnn, hsc]
+    | no => rw [hsc] at hok; simp [Res.isOk] at hok
+    | err => exact absurd hsc hne
+
+/-- Instance references in a history: a waiting `match $action_ref.Finished(<expressions>)` never advances on an event
+    of another (or of no) action instance — whatever its parameters are worth now and whatever was compared before. -/
+theorem waiting_action_ref_only_own_instance (rx : Rx) (sa : String → Option (List (String × Val)))
+    (env : Env) (h : Head) (pre : List Step) (e : Ev) (a : ActionObj) (member : String)
+    (h0 : h.waiting = true) (hw : (runState rx sa env h pre).2.waiting = true)
+    (hs : ∀ ms, h.stmt (envAfter env pre) = some ms → ∃ args, ms = .actionRef a member args)
+    (hk : e.kind = .action) (hi : e.name ∉ internalEventsAll) (hu : e.actionUid ≠ some a.uid) :
+    outcomeAfter rx sa env h pre e ≠ .hit := by
+  intro hhit
+  obtain ⟨_, ms, ref, k, p, h1, h2, h3⟩ := (waiting_statement_follows_current_state rx sa env h pre e h0 hw).1 hhit
+  obtain ⟨args, rfl⟩ := hs ms h1
+  have hz : eventScore rx sa e ref h.prio = .zero :=
+    action_ref_only_own_instance rx sa a member args e ref h.prio h2 hk (fun hh => hi hh.1)
+      (fun hh => hi (by rw [hh.1]; decide)) hu
+  unfold matchingScore at h3
+  split at h3
+  · rw [hz] at h3; cases h3
+  · cases h3
+
+/-- What the code must not do (the seeded change `C04-e`): with the reference event kept per head from the first
+    comparison on, `match $a.Finished(final_script=$g)` with `$g` changed from "a" to "b" after a first non-matching
+    event of that action advances on `final_script="a"` — while the statement evaluated now asks for "b" (`runHist`,
+    the model of the code as it is, stays idle). -/
+theorem cached_reference_event_counterexample :
+    let h : Head := { stmt := fun env => env[0]?.map fun v =>
+                        .actionRef { uid := "u1", name := "A", startArgs := [] } "Finished" [("final_script", v)],
+                      evName := "AFinished" }
+    let ev (s : String) : Step :=
+      .ev { kind := .action, name := "AFinished", args := [("final_script", .str s)], actionUid := some "u1" }
+    let hist := [ev "zz", .set 0 (.str "b"), ev "a"]
+    runHistCached (fun _ _ => false) (fun _ => none) [.str "a"] h none hist = [.idle, .idle, .hit]
+    ∧ runHist (fun _ _ => false) (fun _ => none) [.str "a"] h hist = [.idle, .idle, .idle]
+    ∧ ¬ Matches [] (fun _ _ => false) (.dict [("final_script", .str "a")]) (.dict [("final_script", .str "b")]) := by
+  refine ⟨?_, ?_, ?_⟩
+  · simp [runHistCached, stepHeadCached, isCandidate, refEvent, ActionObj.matchEvent, matchingScore, kindIsInstance,
+      eventScore, eventCore, score, scoreDict, lookup, outcomeOf, internalEventsAll, evStartFlow, evFlowFinished,
+      evFlowFailed, evFlowStarted, argumentFilter, Val.isInstanceOfTypeOf, Val.pyType, PyType.isSub, Val.scalarEq]
+  · simp [runHist, stepHead, headScore, isCandidate, refEvent, ActionObj.matchEvent, matchingScore, kindIsInstance,
+      eventScore, eventCore, score, scoreDict, lookup, outcomeOf, internalEventsAll, evStartFlow, evFlowFinished,
+      evFlowFailed, evFlowStarted, argumentFilter, Val.isInstanceOfTypeOf, Val.pyType, PyType.isSub, Val.scalarEq]
+  · simp [Matches, DictOk, lookup]
+
+/-- non-vacuity of `waiting_statement_follows_current_state` / `earlier_events_leave_no_trace`: a head that is still
+    waiting after a non-matching event and a change of `$g`, and then advances on the value `$g` has NOW -/
+example :
+    let h : Head := { stmt := fun env => env[0]?.map fun v =>
+                        .actionRef { uid := "u1", name := "A", startArgs := [] } "Finished" [("final_script", v)],
+                      evName := "AFinished" }
+    let ev (s : String) : Ev :=
+      { kind := .action, name := "AFinished", args := [("final_script", .str s)], actionUid := some "u1" }
+    let pre : List Step := [.ev (ev "zz"), .set 0 (.str "b")]
+    h.waiting = true ∧ (runState (fun _ _ => false) (fun _ => none) [.str "a"] h pre).2.waiting = true
+    ∧ outcomeAfter (fun _ _ => false) (fun _ => none) [.str "a"] h pre (ev "b") = .hit
+    ∧ outcomeAfter (fun _ _ => false) (fun _ => none) [.str "a"] h pre (ev "a") = .idle := by
+  simp [outcomeAfter, runState, stepHead, headScore, isCandidate, refEvent, ActionObj.matchEvent, matchingScore,
+    kindIsInstance, eventScore, eventCore, score, scoreDict, lookup, outcomeOf, internalEventsAll, evStartFlow,
+    evFlowFinished, evFlowFailed, evFlowStarted, argumentFilter, Val.isInstanceOfTypeOf, Val.pyType, PyType.isSub,
+    Val.scalarEq]
+
+/-- non-vacuity of `waiting_action_ref_only_own_instance`: the hypotheses hold for the head above and an event of
+    action `u2` that carries exactly the value the statement asks for now; it stays idle -/
+example :
+    let a : ActionObj := { uid := "u1", name := "A", startArgs := [] }
+    let h : Head := { stmt := fun env => env[0]?.map fun v => .actionRef a "Finished" [("final_script", v)],
+                      evName := "AFinished" }
+    let e : Ev := { kind := .action, name := "AFinished", args := [("final_script", .str "b")], actionUid := some "u2" }
+    let pre : List Step := [.set 0 (.str "b")]
+    (∀ ms, h.stmt (envAfter [.str "a"] pre) = some ms → ∃ args, ms = .actionRef a "Finished" args)
+    ∧ e.name ∉ internalEventsAll ∧ e.actionUid ≠ some a.uid
+    ∧ outcomeAfter (fun _ _ => false) (fun _ => none) [.str "a"] h pre e = .idle := by
+  refine ⟨?_, ?_, ?_, ?_⟩
+  · intro ms hms
+    simp [envAfter] at hms
+    exact ⟨_, hms.symm⟩
+  · simp [internalEventsAll]
+  · simp
+  · simp [outcomeAfter, runState, stepHead, headScore, isCandidate, refEvent, ActionObj.matchEvent, matchingScore,
+      kindIsInstance, eventScore, eventCore, outcomeOf, internalEventsAll, evStartFlow, evFlowFinished, evFlowFailed,
+      evFlowStarted]
+
+/-- non-vacuity of `plain_statement_advances_iff_documented_now` for `match Ev(x=$g)`.  The kernel cannot evaluate
+    `String.splitOn` (recursion over byte positions), so the fact `"Action" not in "Ev"` is a hypothesis here; the
+    compiled driver evaluates `refEvent (.bare "Ev" false _)` on every `C04.hist` request and the harness requires the
+    answer `plain` (`ref_kind`). -/
+example (hsp : ("Ev".splitOn "Action").length ≤ 1) :
+    let h : Head := { stmt := bareStmt "Ev" false [("x", .var 0)] [], evName := "Ev" }
+    let pre : List Step := [.set 0 (.str "b")]
+    h.waiting = true ∧ (runState (fun _ _ => false) (fun _ => none) [.str "a"] h pre).2.waiting = true
+    ∧ h.stmt (envAfter [.str "a"] pre) = some (.bare "Ev" false [("x", .str "b")])
+    ∧ "Ev" ∉ internalEventsAll ∧ ("Ev".splitOn "Action").length ≤ 1
+    ∧ NoReserved F (.dict [("x", .str "b")])
+    ∧ score F (fun _ _ => false) (.dict [("x", .str "b"), ("y", .int 1)]) (.dict [("x", .str "b")]) = .ok 1 := by
+  refine ⟨rfl, ?_, ?_, ?_, hsp, ?_, ?_⟩
+  · simp [runState, stepHead]
+  · simp [bareStmt, envAfter, Tm.evalKvs, Tm.eval]
+  · simp [internalEventsAll]
+  · simp [NoReserved, NoReservedKvs, F, argumentFilter]
+  · simp [score, scoreDict, lookup, F, argumentFilter, Val.isInstanceOfTypeOf, Val.pyType, PyType.isSub, Val.scalarEq]
 
 /-! ### The open finding, kernel-checked on the model of the code as it is -/
 
